@@ -5,6 +5,7 @@ import Driver.Train
 import Driver.Dict
 import Driver.Cli
 import Driver.Kytea
+import Driver.TrainCli
 /-! `vdriver`: reads one case per line on stdin, writes one response line per case. -/
 open V V.Drv
 
@@ -25,6 +26,7 @@ def handle (line : String) : String :=
   | "WJ" :: r => runDict ("WJ" :: r)
   | "WP" :: r => runDict ("WP" :: r)
   | "TR" :: cfg :: _solver :: dict :: tagdict :: corpus :: _eval :: trace :: _ => runTR cfg dict tagdict corpus trace
+  | "TL" :: fl :: cfg :: _solver :: tok :: part :: dict :: _ => runTL fl cfg tok part dict
   | "TK" :: m :: ws :: h :: cl :: _ => runTK m ws h cl
   | "N" :: h :: _ => runN h
   | "B" :: r => runBin ("B" :: r)
